@@ -18,7 +18,7 @@ CLAIMED = {
             "N<=3 emplaced elements with span lengths symbolic up to 65535 (64 when two spans are symbolic) is shown in-bounds of the exactly-sized ledger block, and data_end-data_begin <= "
             "memory_consumption. Mode B: the same bounds checks are active on every path of the C01/C09 history shapes. Generalisation to larger N is a paper argument (DESIGN 6/C02), not a solver claim.", "6/C02"),
     'C03': ("Every __builtin_assume_aligned the library relies on (llvm.assume align bundles) becomes a proof obligation, plus explicit address%A==0 assertions for every AlignAs field on the "
-            "load path, for fresh vectors (Mode A, symbolic sizes, both block-base residues; incl. 4-byte count types and packed 8-byte objects that start or end on a 4-aligned offset) and after erase/reserve/copy/move/swap (Mode B).", "6/C03"),
+            "load path, for fresh vectors and default-constructed-then-reserved ones (Mode A, symbolic sizes, both block-base residues; incl. 4-byte count types and packed 8-byte objects that start or end on a 4-aligned offset) and after erase/reserve/copy/move/swap (Mode B).", "6/C03"),
     'C04': ("Order, containment, non-overlap of fields and elements, span counts and iterator.data()==reference.data_begin() asserted on numeric addresses: Mode A with symbolic sizes including 0 (2-3 elements; 8 elements on lists without spans), "
             "Mode B after erase/reserve.", "6/C04"),
     'C05': ("Layout clause: every field address equals an independent greedy layout (lowest suitably aligned address), data_end within [greedy end, rounded up to S]; exact memory_consumption for full "
@@ -35,14 +35,14 @@ CLAIMED = {
     'C10': ("reserve(n,b) with symbolic n,b (n<=capacity and n>capacity), repeated reserve, fill to the new limits under bounds checking, contents/fixed sizes/addresses compared before and after (incl. address-sensitive stored values that must be relocated through their constructors); Mode A re-run of the "
             "capacity lemma on a reserved vector.", "6/C10"),
     'C11': ("Write through each access path (case split over operator[], front/back, *it, it[n], it->, reference copies) and read back through all others incl. const paths and structured bindings; reference "
-            "assignment (copy/move), swap, iter_swap between any two positions; iterator arithmetic/comparisons for symbolic offsets in [0,size()]; rotate/reverse/swap_ranges against the same algorithm on the model.", "6/C11"),
+            "assignment (copy/move; also for a value type whose copy and move assignment differ in triviality), swap, iter_swap between any two positions; iterator arithmetic/comparisons for symbolic offsets in [0,size()]; rotate/reverse/swap_ranges against the same algorithm on the model.", "6/C11"),
     'C12': ("ContiguousElement from reference/const_reference/rvalue reference (with and without allocator), copy/move/allocator-extended construction, copy/move assignment between different varying sizes and "
             "allocators (also into a moved-from target), swap, element<->reference assignment; values vs. model, moved-from counters, independence probes in both directions, ledgers; lists incl. two VaryingSize spans of a non-trivial type.", "6/C12"),
     'C13': ("== and != between references, const references, elements and vectors (incl. different allocator types) compared with a content-only model while fresh memory is solver-chosen junk, so padding and spare "
-            "capacity are adversarial; equal / one field differs / strict prefix / empty / moved-from / different fixed sizes arise from the symbolic contents.", "6/C13"),
+            "capacity are adversarial (incl. elements that keep a larger block from an earlier value, and a value type whose == is not bytewise identity); equal / one field differs / strict prefix / empty / moved-from / different fixed sizes arise from the symbolic contents.", "6/C13"),
     'C14': ("Relational laws (>,<=,>= via <; irreflexive, asymmetric, transitive, consistent with ==) on triples over the value domain {0,1,2}, agreement of all operand kinds, content-only dependence "
             "(same content rebuilt in other memory), vector< equals lexicographical_compare under the element-level <.", "6/C14"),
-    'C15': ("14 source/target type pairs x 14 source forms (containers, node/generated ranges, arrays, pointers, move/forward/generated/reverse/segmented iterators) x FixedSize / VaryingSize / over-aligned VaryingSize with a field behind it x lengths 0..2 with symbolic source items: stored bits equal static_cast<T>(item) (z3 FP theory for int->float/double), "
+    'C15': ("16 source/target type pairs (integral, bool, floating point, enum incl. an unscoped 1-byte enum as source, classes with converting constructors / conversion operators, move-counting types) x 14 source forms (containers, node/generated ranges, arrays, pointers, move/forward/generated/reverse/segmented iterators) x FixedSize / VaryingSize / over-aligned VaryingSize with a field behind it x lengths 0..2 with symbolic source items: stored bits equal static_cast<T>(item) (z3 FP theory for int->float/double), "
             "lvalue sources unchanged, rvalue ranges and move_iterators moved from exactly once, exactly `length` items consumed (counting iterators).", "6/C15"),
     'C16': ("Numeric addresses of every element and data_begin(), and the allocator call count, snapshotted before and compared after emplace_back within capacity / pop_back / clear / reserve<=capacity / erase "
             "(elements in front); swap, move construction and equal-allocator move assignment must not allocate and hand over data_begin() unchanged (always-equal, stateful equal/unequal, propagating and swap-only-propagating allocators).", "6/C16"),
